@@ -246,7 +246,11 @@ func runVariant(sc *bw.Scenario, book *simkit.TapeBook, vi int, w *world, pkgAdd
 	for t := 0; t < ntasks; t++ {
 		t := t
 		r.sched.Go(fmt.Sprintf("client%d", t), func(tk *simkit.Task) {
-			ctx, cancel := context.WithCancel(tracer.OnContext(context.Background()))
+			base := context.Background()
+			if va.Tracer != "none" {
+				base = tracer.OnContext(base)
+			}
+			ctx, cancel := context.WithCancel(base)
 			r.cancels[tk.ID] = cancel
 			defer cancel()
 			for pos, ai := range va.Order {
